@@ -66,13 +66,13 @@ KEY_COMP = 'comprehension_later_iterable_reads_own_target'
 # atoms in which an iterable other than the first reads a name that is a target of its own or a later generator
 COMP_CLASS = ('c_two',)
 
-U, V, P = 1, 2, 3          # names: locals u, v; the shared list parameter p
+U, V, P, W = 1, 2, 3, 4    # names: locals u, v; the shared list parameter p; the list local w
 FIRST_PARAM = 10           # b1.. / l1.. / n1.. get ids from here
 
 FULL = ['u=0', 'v=0', 'u=v', 'v=u', 'u=u', 'uv=01', 'uv=vu', 'ret u', 'ret v', 'ret 0', 'pass',
         'c_uvv', 'c_vuu', 'c_uuv', 'c_vvu']
 SMALL = ['u=0', 'v=u', 'ret u', 'ret v', 'ret 0']
-NAME = {U: 'u', V: 'v'}
+NAME = {U: 'u', V: 'v', W: 'w'}
 
 # atom -> (python text, Coq statement, uses the list parameter p)
 ATOMS = {
@@ -102,8 +102,21 @@ ATOMS = {
     'c_late': ('u = sum([u + v for u in range(v) for v in p])',
                f'SAssign [{U}] (EComp [{U}] (EVar {V}) (EComp [{V}] (EVar {P}) (EOp (EVar {U}) (EVar {V}))))', True),
 }
+# every statement form that reads names without binding any: an indexed assignment reads the list
+# it stores into (syntax_check._visit_indexed_assign: _mark_use(stmt.var); the env is unchanged), an
+# assert reads its test - both are `SEffect` of the model
+ATOMS.update({
+    'w=l': ('w = [[0, 0], [0, 0]]', f'SAssign [{W}] EConst', False),
+    'w[0]=l': ('w[0] = [0, 0]', f'SEffect (EOp (EVar {W}) EConst)', False),
+    'w[1][0]=u': ('w[1][0] = u', f'SEffect (EOp (EVar {W}) (EVar {U}))', False),
+    'assert u': ('assert u >= 0', f'SEffect (EOp (EVar {U}) EConst)', False),
+    'assert w': ('assert w[0][0] >= 0', f'SEffect (EOp (EVar {W}) EConst)', False),
+    'u=w': ('u = w[0][0]', f'SAssign [{U}] (EOp (EVar {W}) EConst)', False),
+    'ret w': ('return w[0][0]', f'SReturn (EOp (EVar {W}) EConst)', False),
+})
+STMTSET = ['u=0', 'ret 0', 'ret u', 'w=l', 'w[0]=l', 'w[1][0]=u', 'assert u', 'assert w', 'u=w', 'ret w']
 COMPSET = ['u=0', 'v=0', 'ret u', 'ret v', 'c_own', 'c_two', 'c_tup', 'c_dep', 'c_late']
-ATOM_ID = {a: f'a{n}' for n, a in enumerate(ATOMS)}
+ATOM_ID = {a: f'a{n}' for n, a in enumerate(ATOMS)}   # (ATOMS is complete here)
 HEADER = HEADER.replace('ATOMDEFS', ''.join(f'Definition {ATOM_ID[a]} := {ATOMS[a][1]}.\n' for a in ATOMS))
 SWAP_ATOM = {'u=0': 'v=0', 'v=0': 'u=0', 'u=v': 'v=u', 'v=u': 'u=v', 'ret u': 'ret v', 'ret v': 'ret u',
              'c_uvv': 'c_vuu', 'c_vuu': 'c_uvv', 'c_uuv': 'c_vvu', 'c_vvu': 'c_uuv', 'ret 0': 'ret 0', 'pass': 'pass'}
@@ -130,8 +143,8 @@ def stmts(k, depth, atoms, withs, memo):
         for body in blocks(k - 1, depth - 1, atoms, withs, memo):
             out.append(('if1', body))
             out.append(('while', body))
-            out.append(('for', U, body))
-            out.append(('for', V, body))
+            for tg in memo.get('targets', (U, V)):
+                out.append(('for', tg, body))
             for w in withs:
                 out.append(('with', w, body))
         for a in range(1, k - 1):
@@ -450,8 +463,8 @@ def run(ck):
     progs = []
     seen = set()
 
-    def add_all(n, atoms, withs, dedupe):
-        memo = {}
+    def add_all(n, atoms, withs, dedupe, targets=(U, V)):
+        memo = {'targets': targets}
         for b in blocks(n, 3, atoms, withs, memo):
             if dedupe:
                 sb = swap(b)
@@ -475,6 +488,10 @@ def run(ck):
     for n in range(1, 4):
         add_all(n, COMPSET, [U], False)
     n_comp = len(progs) - n_generic
+    # indexed assignments, asserts and reads of a list name that is unbound / bound on some paths / a loop target
+    for n in range(1, 4):
+        add_all(n, STMTSET, [W], False, targets=(U, W))
+    n_stmt = len(progs) - n_generic - n_comp
     for b in nest_family():
         progs.append(b)
         ck.count('programs-of-the-if-nest-family')
